@@ -107,6 +107,54 @@ class C06(ExprProp):
         return cases
 
 
+    FILLER_PHRASES = ["the mass of the earth", "the radius", "mass of earth", "population of finland", "a mass", "speed of light",
+                      "the speed of light", "mass of the sun", "an orbital period", "radius of the moon", "the population of the world",
+                      "of the", "the of a an mass", "distance to the sun of", "mass the earth", "mass a earth"]
+
+    def scenarios(self, rng, tier):
+        """Blanks inside a fact PHRASE: the words of a phrase are separated by blanks too, and the
+        phrase is handed to the index as typed. Whatever blanks separate its words, the same
+        constant must be found as with single spaces (phrases with articles and `of` included)."""
+        from .props_db import dump_facts, typeable
+        seps = ["\t", "  ", " \t ", "\n", "\u00a0", "\u2003", "\u000b", " \u0085", "\t\t"]
+        phrases = list(self.FILLER_PHRASES)
+        facts = [f["tokens"] for f in dump_facts() if "tokens" in f and typeable(f["tokens"]) and len(f["tokens"]) > 1]
+        for t in facts[:: 9 if tier == "quick" else 1]:
+            phrases.append(" ".join(t))
+            if rng.chance(1, 3):
+                k = rng.below(len(t))
+                phrases.append(" ".join(t[:k] + [rng.choice(["the", "of", "a", "an"])] + t[k:]))
+        lines, owner = [], []
+        for p_ in phrases:
+            words = p_.split(" ")
+            if words[0][:1].isdigit() or "to" in words:
+                continue
+            lines.append("query " + C.hexs(p_) + " describe")
+            owner.append((p_, None))
+            for _ in range(3):
+                v = words[0] + "".join((rng.choice(seps) if rng.chance(2, 3) else " ") + w for w in words[1:])
+                if v != p_:
+                    lines.append("query " + C.hexs(v) + " describe")
+                    owner.append((p_, v))
+        rc, out, err = C.run_lines(C.harness_bin(False), lines, watchdog=20)
+
+        def found(o):
+            d = o.split(" # D")
+            return (o.split(" # D")[0].strip(), d[1].strip().split("=>")[1] if len(d) > 1 and "=>" in d[1] else "-")
+        base, fails, n, nontriv = {}, [], 0, 0
+        for (p_, v), o in zip(owner, out):
+            if v is None:
+                base[p_] = found(o)
+                continue
+            n += 1
+            if found(o) != base.get(p_):
+                fails.append((f"phrase-blanks:{p_}", v, f"the phrase {p_!r} typed as {v!r} finds {C.unhex(found(o)[1])!r} ({found(o)[0][:40]}), "
+                              f"with single spaces {C.unhex(base[p_][1])!r} ({base[p_][0][:40]})"))
+            elif base[p_][1] != "-":
+                nontriv += 1
+        return {"evaluations": n, "nontrivial": nontriv, "spec_fail": fails[:10], "dist": {"phrase-blank-variants": n, "phrases": len(base)}}
+
+
 class C01(ExprProp):
     """Theorems (Props/C01.lean): on plain numbers `+ - * / ^` of the evaluator are exactly the exact-arithmetic operations for all rationals and integer exponents (the `pow` loop by induction), division by zero including 0^negative is an error; with C06's `C06_query` every well-formed expression under every admissible layout evaluates to its exact denotation. Correspondence: expression trees with big literals and every operator mix, implementation = model = independent exact evaluator."""
     id = "C01"
